@@ -305,6 +305,7 @@ type escaper struct {
 	p        *core.Prog
 	problems []string
 	seenV    map[ssa.Value]bool
+	seenH    map[holderKey]bool
 	// SyncHOF: callee names that call their function argument synchronously
 	// and do not retain it.
 	syncHOF map[string]bool
@@ -346,9 +347,11 @@ func (e *escaper) ptr(v ssa.Value) {
 			if x.Addr == v {
 				continue // writing through the pointer
 			}
-			// the pointer itself is stored: fine only into a local cell
+			// the pointer itself is stored: fine only into a local cell — or into a field of a local struct that is used
+			// for nothing but a synchronous callback (`w := attrWriter{buf: buf, …}; r.Attrs(w.write)`)
 			if a, ok := x.Addr.(*ssa.Alloc); ok {
 				e.cell(a)
+			} else if fa, ok := x.Addr.(*ssa.FieldAddr); ok && e.holderPtr(fa.X, fa.Field, 0) {
 			} else {
 				e.bad("pointer to the private buffer is stored to %s at %s", sx.AddrPath(x.Addr), e.p.Pos(x.Pos()))
 			}
@@ -381,6 +384,171 @@ func (e *escaper) ptr(v ssa.Value) {
 			e.bad("unrecognised use of the private buffer pointer: %s at %s", r.String(), e.p.Pos(r.Pos()))
 		}
 	}
+}
+
+// holderPtr: h points to a local struct whose field `field` holds the private pointer. True when every use of h keeps
+// the pointer as private as a local variable would: field accesses (loads of that field are tracked as the pointer),
+// the whole struct loaded to be bound as the receiver of a method value that is handed to a synchronous higher-order
+// function, or h itself bound / passed as the receiver of such a method.
+func (e *escaper) holderPtr(h ssa.Value, field int, depth int) bool {
+	if depth > 3 {
+		return false
+	}
+	switch h.(type) {
+	case *ssa.Alloc, *ssa.Parameter, *ssa.FreeVar:
+	default:
+		return false
+	}
+	key := holderKey{h, field}
+	if e.seenH == nil {
+		e.seenH = map[holderKey]bool{}
+	}
+	if e.seenH[key] {
+		return true
+	}
+	e.seenH[key] = true
+	refs := h.Referrers()
+	if refs == nil {
+		return true
+	}
+	ok := true
+	for _, r := range *refs {
+		switch x := r.(type) {
+		case *ssa.FieldAddr:
+			if x.Field != field {
+				continue
+			}
+			for _, rr := range *x.Referrers() {
+				switch y := rr.(type) {
+				case *ssa.Store:
+				case *ssa.UnOp:
+					e.ptr(y)
+				case *ssa.DebugRef:
+				default:
+					ok = false
+				}
+			}
+		case *ssa.UnOp: // the whole struct, by value
+			if x.Op != token.MUL || !e.holderVal(x, field, depth) {
+				ok = false
+			}
+		case *ssa.Store:
+			if x.Addr != h { // the holder's address stored somewhere
+				ok = false
+			}
+		case *ssa.MakeClosure:
+			if !e.holderClosure(x, h, field, depth) {
+				ok = false
+			}
+		case ssa.CallInstruction:
+			if !e.holderCall(x, h, field, depth, true) {
+				ok = false
+			}
+		case *ssa.DebugRef:
+		default:
+			ok = false
+		}
+	}
+	return ok
+}
+
+type holderKey struct {
+	v     ssa.Value
+	field int
+}
+
+// holderVal: v is the struct value itself.
+func (e *escaper) holderVal(v ssa.Value, field int, depth int) bool {
+	refs := v.Referrers()
+	if refs == nil {
+		return true
+	}
+	ok := true
+	for _, r := range *refs {
+		switch x := r.(type) {
+		case *ssa.Field:
+			if x.Field == field {
+				e.ptr(x)
+			}
+		case *ssa.Store:
+			if a, isA := x.Addr.(*ssa.Alloc); isA && x.Val == v {
+				if !e.holderPtr(a, field, depth+1) {
+					ok = false
+				}
+			} else {
+				ok = false
+			}
+		case *ssa.MakeClosure:
+			if !e.holderClosure(x, v, field, depth) {
+				ok = false
+			}
+		case ssa.CallInstruction:
+			if !e.holderCall(x, v, field, depth, false) {
+				ok = false
+			}
+		case *ssa.DebugRef:
+		default:
+			ok = false
+		}
+	}
+	return ok
+}
+
+// holderClosure: the holder is bound into a closure: only the bound-method wrapper of one of its own methods, handed to
+// a synchronous higher-order function (or called directly).
+func (e *escaper) holderClosure(mc *ssa.MakeClosure, bound ssa.Value, field int, depth int) bool {
+	fn, _ := mc.Fn.(*ssa.Function)
+	if fn == nil || !strings.HasSuffix(fn.Name(), "$bound") || len(mc.Bindings) != 1 || mc.Bindings[0] != bound {
+		return false
+	}
+	for _, r := range *mc.Referrers() {
+		switch x := r.(type) {
+		case *ssa.Go:
+			return false
+		case ssa.CallInstruction:
+			if x.Common().Value == ssa.Value(mc) {
+				continue
+			}
+			if !e.syncHOF[sx.CalleeName(x)] {
+				return false
+			}
+		case *ssa.DebugRef:
+		default:
+			return false
+		}
+	}
+	// inside the wrapper the free variable is the receiver of the one call
+	fv := fn.FreeVars[0]
+	if _, isPtr := fv.Type().Underlying().(*types.Pointer); isPtr {
+		return e.holderPtr(fv, field, depth+1)
+	}
+	return e.holderVal(fv, field, depth+1)
+}
+
+// holderCall: the holder is an argument of a call: only as the receiver (or a parameter) of a module function, where it
+// is followed.
+func (e *escaper) holderCall(c ssa.CallInstruction, v ssa.Value, field int, depth int, isPtr bool) bool {
+	if _, isGo := c.(*ssa.Go); isGo {
+		return false
+	}
+	callee := sx.StaticCallee(c)
+	if callee == nil || !e.p.InModule(callee) || callee.Blocks == nil {
+		return false
+	}
+	ok := true
+	for i, a := range sx.Args(c) {
+		if a != v || i >= len(callee.Params) {
+			continue
+		}
+		if isPtr {
+			if !e.holderPtr(callee.Params[i], field, depth+1) {
+				ok = false
+			}
+		} else if !e.holderVal(callee.Params[i], field, depth+1) {
+			ok = false
+		}
+	}
+	return ok
 }
 
 var getterFns = map[*ssa.Function]bool{}
